@@ -140,8 +140,24 @@ def _post_buffer(geometry, time_buffer, freq_buffer, kwargs, result):
         return True
     # bounds extend by at least the buffers (minus the 32-gon cap band), clipped to the domain
     b1 = geoms.ref_bounds(rs)
-    k = 1 - ROUND_CAP_SHORTFALL - GEOS_BUFFER_SIMPLIFY
-    need = (max(b0[0] - k * tb, 0.0), max(b0[1] - k * fb, 0.0), b0[2] + k * tb, min(b0[3] + k * fb, MAXF))
+    # how far short of the nominal buffer may a side fall?  Only the polygonal round caps at the two END vertices of
+    # a line (32-gons oriented along the line, plus GEOS' input simplification there) fall short.  A side whose
+    # extreme is an interior vertex of a line, a polygon vertex or a point is offset by mitre joins (which reach at
+    # least the buffer distance in every axis direction) or by a 32-gon that has vertices on the axes: exact up to
+    # round-off (measured <= 5e-7 of a buffer over 40 000 cases; 1e-5 allowed).
+    kcap, kexact = 1 - ROUND_CAP_SHORTFALL - GEOS_BUFFER_SIMPLIFY, 1 - 1e-5
+    ks = [kexact] * 4
+    if t in ("LineString", "MultiLineString"):
+        lines = [spec["coordinates"]] if t == "LineString" else spec["coordinates"]
+        for side, (ax, sign) in enumerate(((0, -1), (1, -1), (0, 1), (1, 1))):
+            ext = b0[side]
+            scale = tb if ax == 0 else fb
+            for ln in lines:
+                for p_ in ([ln[0], ln[-1]] if len(ln) > 2 else ln):
+                    # an end vertex within a cap band of the extreme: the side may be formed by its round cap
+                    if abs(p_[ax] - ext) <= 0.02 * scale + 1e-12 * max(1.0, abs(ext)):
+                        ks[side] = kcap
+    need = (max(b0[0] - ks[0] * tb, 0.0), max(b0[1] - ks[1] * fb, 0.0), b0[2] + ks[2] * tb, min(b0[3] + ks[3] * fb, MAXF))
     st, sf = 1e-9 * max(1.0, abs(b0[2])), 1e-9 * max(1.0, abs(b0[3]))
     if b1[0] > need[0] + st or b1[1] > need[1] + sf or b1[2] < need[2] - st or b1[3] < need[3] - sf:
         c.violate("bounds_extend", _key("bounds_extend", sfx), observed=list(b1), expected={"at_least": list(need), "original": list(b0)}, spec=sp)
